@@ -486,6 +486,16 @@ func cmdCheck(repo, root string, args []string) int {
 	for _, e := range genErrs {
 		fails = append(fails, failure{name: "generation: " + e, status: "not-generated", text: e})
 	}
+	if prop == "C12" {
+		// the ownership model treats strings as immutable values and slices as regions with an owner; both are unsound in the
+		// presence of unsafe conversions, so a package of the repository importing unsafe leaves C12 undecided
+		for _, p := range w.Pkgs {
+			if _, ok := p.Imports["unsafe"]; ok && strings.HasPrefix(p.PkgPath, modPath) {
+				fails = append(fails, failure{name: "C12.scan[no-unsafe:" + shortKey(p.PkgPath) + "]", status: "not-generated",
+					text: "package " + p.PkgPath + " imports unsafe: strings/slices may share memory in ways the ownership model (A-STR) does not cover"})
+			}
+		}
+	}
 	for i, l := range t1Lemmas {
 		if lemRes[i].Result != "unsat" {
 			fails = append(fails, failure{name: "theory.T1[" + l.Name + "]", status: lemRes[i].Result, text: l.Axiom()})
@@ -544,7 +554,7 @@ func cmdCheck(repo, root string, args []string) int {
 			continue
 		}
 		violations++
-		if f.obl != nil && f.obl.Result == "sat" && f.obl.Replay != nil {
+		if f.obl != nil && f.obl.Replay != nil && (f.obl.Result == "sat" || f.obl.Replay.ExpectPanic) {
 			// ground counterexample: replay it on the real code
 			if confirmed, rec := replayModel(repo, root, f.obl); confirmed {
 				rec["property"], rec["obligation"], rec["clause"], rec["at"] = prop, f.name, f.text, f.pos
